@@ -47,6 +47,10 @@ func (t *Transaction) Transact(operations ...ovsdb.Operation) ([]*ovsdb.Operatio
 
 	if !t.Database.Exists(t.DbName) {
 		r := ovsdb.ResultFromError(fmt.Errorf("database does not exist"))
+		if len(results) == 0 {
+			// a transaction without operations has no result to hold the error
+			return append(results, &r), updates.NewDatabaseUpdate(update, nil)
+		}
 		results[0] = &r
 		return results, updates.NewDatabaseUpdate(update, nil)
 	}
@@ -54,6 +58,9 @@ func (t *Transaction) Transact(operations ...ovsdb.Operation) ([]*ovsdb.Operatio
 	err := t.initializeCache()
 	if err != nil {
 		r := ovsdb.ResultFromError(err)
+		if len(results) == 0 {
+			return append(results, &r), updates.NewDatabaseUpdate(update, nil)
+		}
 		results[0] = &r
 		return results, updates.NewDatabaseUpdate(update, nil)
 	}
